@@ -29,6 +29,7 @@ typedef struct {
 } LedgerErr;
 
 extern volatile int g_in_lib;   /* 1 while the harness is inside a library call */
+extern int g_alloc_skew_phase;  /* 0/1: whether odd or even library allocations land on 16 modulo 32 */
 extern int g_fail_at;           /* 1-based index of the library allocation to fail; 0 = none */
 extern int g_alloc_calls;       /* library allocation requests in this world */
 extern LedgerErr g_lerr;
